@@ -509,9 +509,67 @@ def through_equalities(st, form):
     return out[:4]
 
 
+def _get_range(c, arr, loc):
+    """slice.get(range) -> Option<&[T]>: Some(view) exactly when start <= end <= len"""
+    idx, iloc = c.arg(1)
+    r = get_range(c, idx, iloc, arr, loc, c.st)
+    if r is None:
+        c.ret_top()
+        return
+    s, sl, e, el = r
+    ln, l = len_lin(c, arr, loc)
+    c.I.emit("index", call=c, arr_loc=loc, index=(s, e), index_lin=(sl, el), st=c.st, kind="range")
+    inside = prove_le(c.st, sl, el, s, e) and prove_le(c.st, el, l, e, ln)
+    outside = (s.lo > e.hi) or (e.lo > ln.hi) or (el is not None and l is not None and c.st.entails_le(l - el + 1))
+    if not inside:
+        s0 = c.fork()
+        try:
+            # start <= end holds for every range written as `..n` / `a..` with a <= len checked elsewhere; record end > len when it is the only way out
+            if el is not None and l is not None and prove_le(s0, sl, el, s, e):
+                for f in through_equalities(s0, l - el + 1):
+                    s0.add_le(f)
+            c.ret(opt_none(), st=s0)
+        except Infeasible:
+            pass
+    if not outside:
+        s1 = c.st
+        try:
+            if sl is not None and el is not None:
+                s1.add_le(sl - el)
+            if el is not None and l is not None:
+                for f in through_equalities(s1, el - l):
+                    s1.add_le(f)
+            vl = (el - sl) if (el is not None and sl is not None) else None
+            lo, hi = max(e.lo - s.hi, 0), max(min(e.hi, ln.hi) - s.lo, 0)
+            if vl is not None:
+                b = s1.lin_bounds(vl)
+                if b[0] is not None:
+                    lo = max(lo, b[0])
+                if b[1] is not None:
+                    hi = min(hi, b[1])
+            cells = {}
+            if s.is_const():
+                for k, x in (arr.cells or {}).items():
+                    if k >= s.lo and (not e.is_const() or k < e.lo):
+                        cells[k - s.lo] = x
+            view = Arr(usize(lo, max(hi, lo)), arr.elem, cells, "slice")
+            cell = new_tmp(c, s1, view, "getview")
+            c.ret(opt_some(Ref(cell, ())), st=s1)
+            if vl is not None and lo != hi:
+                try:
+                    s1.cons.add_eq(LinForm.var((cell, ("len",))) - vl)
+                except Exception:
+                    pass
+        except Infeasible:
+            pass
+
+
 @model("std::collections::VecDeque::get", "core::slice::get")
 def m_get(c):
     arr, loc = _vec_arg(c)
+    iv, _ = c.arg(1)
+    if arr is not None and isinstance(iv, Struct) and iv.path.startswith("std::ops::Range"):
+        return _get_range(c, arr, loc)
     i, il = c.arg_int(1)
     if arr is None or i is None:
         c.ret_top()
@@ -550,7 +608,13 @@ def m_last(c):
         return
     ln, l = len_lin(c, arr, loc)
     elem = arr.elem if not arr.elem.is_bot() else Top()
-    if ln.lo <= 0:
+    # positional knowledge about the element asked for (first: index 0; last: index len-1 when the length is known)
+    is_first = c.name.split("::")[-1] in ("first", "front", "first_mut")
+    pos = 0 if is_first else (ln.lo - 1 if ln.is_const() else None)
+    if pos is not None and arr.cells and pos in arr.cells and not c.name.endswith("_mut"):
+        elem = arr.cells[pos]
+    nonempty = ln.lo >= 1 or (l is not None and c.st.entails_le(LinForm.constant(1) - l))
+    if not nonempty:
         s0 = c.fork()
         try:
             if l is not None and not l.is_const():
@@ -563,7 +627,12 @@ def m_last(c):
         try:
             if l is not None and not l.is_const():
                 s1.add_le(LinForm.constant(1) - l)
-            if loc is not None and c.name.endswith("_mut"):
+            if loc is not None and pos is not None and 0 <= pos < 4096 and arr.container in ("slice", "array", "vec", "boxed"):
+                # a definite position: reference to that positional cell of the container (what is learnt about it stays with the container)
+                p = loc[1] + (("c", pos),)
+                c.I._materialize_cell(s1, loc[0], p)
+                c.ret(opt_some(Ref(loc[0], p, c.name.endswith("_mut"))), st=s1)
+            elif loc is not None and c.name.endswith("_mut"):
                 # reference to the summary element of the container itself (writes through it are weak updates of the summary)
                 c.ret(opt_some(Ref(loc[0], loc[1] + ("elem",), True)), st=s1)
             else:
@@ -1075,6 +1144,25 @@ def m_fold(c):
                 return
             acc = res
         c.ret(acc)
+        return
+    if isinstance(rem, Int) and rem.hi <= 8:
+        # a short slice of unknown length: the exact result for each possible length, joined
+        out = None
+        for i in range(rem.hi + 1):
+            if i >= rem.lo:
+                out = acc if out is None else join_val(out, acc)
+            if i == rem.hi:
+                break
+            el = elem
+            if it.pos is not None and it.cells:
+                el = it.cells.get(it.pos + i, elem)
+            cell = new_tmp(c, c.st, el, ("foldelem", i))
+            res = _closure_result_pure(c, clo, [(acc, None), (Ref(cell, ()) if it.extra != "val" else el, None)])
+            if res is None:
+                c.ret_top()
+                return
+            acc = res
+        c.ret(out)
         return
     for _ in range(8):
         cell = new_tmp(c, c.st, elem, "foldelem")
